@@ -347,6 +347,46 @@ pub fn dns_nested() -> Vec<Vec<u8>> {
             v.push(dns::encode(&r, dns::Compress::All));
         }
     }
+    // pointer pairs: a name that points (legally backwards) at two octets which are themselves
+    // a pointer - to themselves, to each other, or onwards - anywhere in the header; and the
+    // same from inside a record of a reply.  Loops that add no label are bounded by nothing but
+    // a hop count.
+    {
+        let q = dns::encode(&dns::query(0, &n("loop.example.com"), 1, 1, true, None), dns::Compress::Off);
+        let mut r = dns::query(2, &n("q.example.com"), 1, 1, true, None);
+        r.header.qr = true;
+        r.answer.push(dns::Rr { name: n("q.example.com"), rtype: 5, class: 1, ttl: 60, rdata: dns::RData::Raw(vec![0xc0, 0x00]) });
+        let r = dns::encode(&r, dns::Compress::Off);
+        for t in (0u8..12).step_by(2) {
+            for u in (0u8..12).step_by(2) {
+                // header position t holds a pointer to position u, position u one to t
+                let mut b = q.clone();
+                b[t as usize] = 0xc0;
+                b[t as usize + 1] = u;
+                b[u as usize] = 0xc0;
+                b[u as usize + 1] = t;
+                // the question name is a pointer to t; the rest of the old name follows as junk
+                b[12] = 0xc0;
+                b[13] = t;
+                v.push(b.clone());
+                // ... and properly terminated: pointer, then type and class
+                let mut c = b[..14].to_vec();
+                c.extend_from_slice(&[0, 1, 0, 1]);
+                v.push(c);
+                let mut rr = r.clone();
+                rr[t as usize] = 0xc0;
+                rr[t as usize + 1] = u;
+                if t != u {
+                    rr[u as usize] = 0xc0;
+                    rr[u as usize + 1] = t;
+                }
+                let l = rr.len();
+                rr[l - 2] = 0xc0;
+                rr[l - 1] = t;
+                v.push(rr);
+            }
+        }
+    }
     // names: every label count 0..=40 and label length 1..=63 at the question
     for labels in 0..=40usize {
         let name: dns::Name = (0..labels).map(|i| vec![b'a' + (i % 26) as u8; 1 + i % 5]).collect();
